@@ -198,6 +198,8 @@ def dom_1q(tier: str, seed: int, opts: dict) -> list[dict]:
     out = []
     if radix == 2:
         L = 3 if tier == 'quick' else 4
+        if tier == 'quick' and opts:      # non-default option dicts: shorter
+            L = 2
         alpha = [['H', [0], []], ['X', [0], []], ['T', [0], []],
                  ['SX', [0], []], ['RZ', [0], [generic(seed, 0)]],
                  ['RY', [0], [PI / 2]], ['U3', [0], g3(seed, 1)]]
@@ -399,6 +401,8 @@ def dom_blocks(tier: str, seed: int, opts: dict) -> list[dict]:
     """<= L ops on 3 qubits over variable / constant / circuit-gate blocks at
     several (also unsorted) locations, nested blocks, and plain gates."""
     L = 3 if tier == 'quick' else 4
+    if 'target' in opts:       # BlockConversionPass: 16 option dicts
+        L -= 1
     blk = [['CNOT', [0, 1], []], ['U3', [1], g3(seed, 2)]]
     alpha = [
         ['@vu', [0, 1], ['haar', 4, 400 + seed]],
@@ -513,7 +517,12 @@ def dom_fill(tier: str, seed: int, opts: dict) -> list[dict]:
                  ['H3', [0], []], ['X3', [1], []],
                  ['@vu', [1], ['haar', 3, 500 + seed]]]
         return [spec_of([3, 3], s) for s in seqs(alpha, L)]
-    alpha = [['CNOT', list(p), []] for p in it.permutations(range(3), 2)]
+    pairs = list(it.permutations(range(3), 2))
+    if tier == 'quick':
+        pairs = [(0, 1), (1, 0), (1, 2), (2, 0)]
+        if opts:
+            L = 2
+    alpha = [['CNOT', list(p), []] for p in pairs]
     alpha += [['U3', [0], g3(seed)], ['H', [1], []], ['T', [2], []],
               ['CCX', [2, 0, 1], []]]
     return [spec_of([2, 2, 2], s) for s in seqs(alpha, L)]
@@ -562,6 +571,8 @@ add(Row(
 
 def dom_extend(tier: str, seed: int, opts: dict) -> list[dict]:
     L = 3 if tier == 'quick' else 4
+    if tier == 'quick' and opts:
+        L = 2
     blk = [['CNOT', [0, 1], []], ['U3', [1], g3(seed, 2)]]
     alpha = [
         ['@block', [0], [['H', [0], []]]],
@@ -743,6 +754,16 @@ def dom_num(tier: str, seed: int, opts: dict) -> list[dict]:
                     ops = _dress(w, skel, style, seed)
                 out.append(spec_of([radix] * w, ops))
     if radix == 2:
+        # threshold probes: CNOT . RZ(eps) . CNOT with eps such that dropping
+        # (or replacing) the RZ costs 30 x threshold -- above the tolerance
+        # (10 x), below a x100 slip of the acceptance test; and one whose
+        # removal costs threshold / 30 (legitimately removable)
+        thr = float(opts.get('thr', 1e-8))
+        for c in (30.0 * thr, thr / 30.0):
+            eps = float(np.sqrt(8.0 * c))
+            out.insert(1, spec_of([2, 2], [
+                ['CNOT', [0, 1], []], ['RZ', [1], [eps]], ['CNOT', [0, 1], []],
+            ]))
         # identity-valued circuits (everything is removable)
         z = [0.0, 0.0, 0.0]
         out.insert(1, spec_of([2, 2], [['U3', [0], z]]))
@@ -970,6 +991,8 @@ def dom_synth(widths_quick: list[int], widths_thorough: list[int]) -> Callable:
             ts = synth_targets(n, seed, tier)
             if n == 3 and tier == 'quick':
                 ts = ts[:3]
+            if opts.get('few') and tier == 'quick':
+                ts = ts[:2] + ts[6:10]
             out += [spec_of([2] * n, [['@cu', list(range(n)), t]])
                     for t in ts]
         return out
@@ -1041,7 +1064,7 @@ add(Row(
     make=lambda o, s, seed: ([P.QPredictDecompositionPass(
         success_threshold=_thr(o),
     )], {'seed': seed}),
-    tol=_num_tol, weight=1.0, timeout=150.0,
+    tol=_num_tol, weight=1.0, timeout=30.0,
     note='2-qubit targets take the documented "block too large" skip path',
 ))
 
@@ -1074,8 +1097,8 @@ add(Row(
     'PermutationAwareSynthesisPass', 'numerical',
     domain=dom_synth([2], [2, 3]),
     options=lambda tier, seed: [
-        {'ip': False, 'op': True}, {'ip': True, 'op': False},
-        {'ip': True, 'op': True}, {'ip': False, 'op': False},
+        {'ip': False, 'op': True, 'few': 1}, {'ip': True, 'op': False, 'few': 1},
+        {'ip': True, 'op': True, 'few': 1}, {'ip': False, 'op': False, 'few': 1},
     ],
     make=lambda o, s, seed: ([P.PermutationAwareSynthesisPass(
         input_perm=o['ip'], output_perm=o['op'],
@@ -1096,7 +1119,10 @@ def dom_vu(min_key: str, default_min: int) -> Callable:
         out = []
         for n in range(min(m + 1, top), top + 1):
             size = 'small' if (tier == 'quick' or n == 4) else 'full'
-            for us in unitary_catalogue(n, seed, size):
+            cat_n = unitary_catalogue(n, seed, size)
+            if opts.get('scan') and (tier == 'quick' or n == 4):
+                cat_n = cat_n[:2] + cat_n[6:8] + cat_n[-2:]   # scans are slow
+            for us in cat_n:
                 out.append(spec_of([2] * n, [['@vu', list(range(n)), us]]))
         out.append(spec_of([2, 2, 2], [
             ['U3', [0], g3(seed)], ['@vu', [2, 0], ['haar', 4, 800 + seed]],
@@ -1333,7 +1359,56 @@ add(Row(
 
 
 # TAIL
-SKIPPED: dict[str, str] = {}
+_R_NOTPASS = 'not a pass (predicate / layer generator / heuristic / frontier)'
+_R_C08 = 'partitioner: regrouping is property C08'
+_R_C09 = 'placement / layout / routing / mapping data: property C09'
+_R_C11 = 'control-flow / block-wise combinator: property C11'
+_R_IO = 'checkpoint / intermediate file IO, no rewriting of its own'
+_R_DATA = 'only writes PassData (model / target / tags), used as set-up here'
+
+SKIPPED: dict[str, str] = {
+    **{n: _R_NOTPASS for n in (
+        'AStarHeuristic', 'DijkstraHeuristic', 'GreedyHeuristic',
+        'HeuristicFunction', 'Frontier', 'LayerGenerator',
+        'DiscreteLayerGenerator', 'FourParamGenerator',
+        'MiddleOutLayerGenerator', 'SeedLayerGenerator',
+        'SimpleLayerGenerator', 'SingleQuditLayerGenerator',
+        'StairLayerGenerator', 'WideLayerGenerator', 'PassPredicate',
+        'ChangePredicate', 'GateCountPredicate', 'NotPredicate',
+        'WidthPredicate', 'PhysicalPredicate', 'SinglePhysicalPredicate',
+        'MultiPhysicalPredicate', 'ManyQuditGatesPredicate',
+        'NoSingleQuditGatesInModel', 'HasGeneralSingleQuditGate',
+        'ZXGatePredicate', 'AllConstantSingleQuditGates',
+    )},
+    **{n: _R_C08 for n in (
+        'ClusteringPartitioner', 'GreedyPartitioner', 'ScanPartitioner',
+        'QuickPartitioner', 'GTQCPartitioner', 'TDAGPartitioner',
+    )},
+    **{n: _R_C09 for n in (
+        'ApplyPlacement', 'GreedyPlacementPass', 'TrivialPlacementPass',
+        'StaticPlacementPass', 'GeneralizedSabreLayoutPass',
+        'GeneralizedSabreRoutingPass', 'PAMLayoutPass', 'PAMRoutingPass',
+        'EmbedAllPermutationsPass', 'SubtopologySelectionPass',
+        'ExtractModelConnectivityPass', 'RestoreModelConnectivityPass',
+        'TagPAMBlockDataPass', 'UnTagPAMBlockDataPass',
+        'CalculatePAMErrorsPass', 'PAMVerificationSequence',
+    )},
+    **{n: _R_C11 for n in (
+        'DoThenDecide', 'DoWhileLoopPass', 'WhileLoopPass', 'IfThenElsePass',
+        'ForEachBlockPass', 'ParallelDo', 'PassAlias', 'PassGroup',
+    )},
+    **{n: _R_IO for n in (
+        'LoadCheckpointPass', 'SaveCheckpointPass', 'SaveIntermediatePass',
+        'RestoreIntermediatePass',
+    )},
+    'SetModelPass': _R_DATA, 'SetTargetPass': _R_DATA,
+    'SynthesisPass': 'abstract base class; its concrete subclasses have rows',
+    'LogErrorPass': 'logs PassData.error only; the circuit-untouched check '
+                    'is run on its sibling LogPass',
+    'ExtractMeasurements': 'moves measurement placeholders out of the '
+                           'circuit: not a unitary-preserving rewrite',
+    'RestoreMeasurements': 'inverse of ExtractMeasurements, same reason',
+}
 
 
 def uncatalogued() -> list[str]:
